@@ -592,6 +592,7 @@ func init() {
 			panic(goPanic{msg: "sync: negative WaitGroup counter"})
 		}
 		in.release(w.vc)
+		in.releaseW(w)
 		return nil
 	})
 	reg("(*sync.WaitGroup).Done", func(in *Interp, fr *frame, a []Value, c *ssa.CallCommon) Value {
@@ -602,6 +603,7 @@ func init() {
 			panic(goPanic{msg: "sync: negative WaitGroup counter"})
 		}
 		in.release(w.vc)
+		in.releaseW(w)
 		return nil
 	})
 	reg("(*sync.WaitGroup).Wait", func(in *Interp, fr *frame, a []Value, c *ssa.CallCommon) Value {
@@ -609,6 +611,7 @@ func init() {
 		in.visible("wg-wait")
 		in.blockUntil(func() bool { return w.n == 0 }, "WaitGroup.Wait")
 		in.acquire(w.vc)
+		in.acquireW(w)
 		return nil
 	})
 
